@@ -142,7 +142,6 @@ ghost var gSpecsLen int
 ghost var gPolicies int
 func (s *Spec) Validate() (err error)
   flag allocates
-  flag frame=unchecked
   requires s != nil
   modifies gFlowChecked, gSpecsLen, gPolicies
   panics_only_if true
